@@ -19,4 +19,5 @@ def rules(ctx, tier):
         lambda: search.rule_finderroute(ctx),
         lambda: mutation.rule_mut(ctx),
         lambda: forward.rule_fwd_assid(ctx),
+        lambda: search.rule_constvalid(ctx),
     ]
